@@ -7,7 +7,7 @@ from .. import gen, putcheck, run, snap, spec, world
 ID = 'C01'
 
 SPELLINGS = ['rel', 'abs', 'dotslash', 'dotdot', 'dotdot_link', 'trail1',
-             'trail2', 'via_link_parent', 'abs_trail', 'double_slash']
+             'trail2', 'trail3', 'via_link_parent', 'abs_trail', 'double_slash']
 DOT_SPELLINGS = ['.', '..', './', '../', 'd/.', 'd/..', 'd/./', './/',
                  'd/../', 'd/.//', './.', 'mount', 'mount/', 'ancestor',
                  'mount_rel']
@@ -30,14 +30,7 @@ def config(tier):
     }
 
 
-def gen_case(rng, index, tier):
-    L = gen.make_layout(rng)
-    dotcase = rng.random() < 0.22
-    args = []
-    nodes = []
-    opts = []
-    stdin = ''
-    # where entries live
+def setup_workdirs(L, rng, cwd_vol=None):
     vols = list(L.mounts)
     workdirs = {}
     for v in vols:
@@ -45,146 +38,201 @@ def gen_case(rng, index, tier):
             else L.vol_path(v, 'work')
         workdirs[v] = wd
         L.add({'p': wd, 't': 'd', 'm': 0o755})
-    cwd_vol = rng.choice(vols)
-    cwd = workdirs[cwd_vol]
-    L.cwd = cwd
-    n_args = 1 if dotcase else rng.choice([1, 1, 2, 2, 3])
-    used = set()
-    for a in range(n_args):
-        tag = 'c%da%d' % (index, a)
-        if dotcase:
-            sp = rng.choice(DOT_SPELLINGS)
-            # give the cwd some content and a subdir d
-            L.add(gen.entry_nodes(rng, cwd + '/keep-' + tag, 'file', tag))
-            L.add({'p': cwd + '/d', 't': 'd', 'm': 0o755})
-            L.add(gen.entry_nodes(rng, cwd + '/d/inner-' + tag, 'tree', tag + 'i'))
-            if sp in ('mount', 'mount/', 'mount_rel'):
-                ms = [m for m in L.mounts if m]
-                if not ms:
-                    sp = './'
-                else:
-                    m = rng.choice(ms)
-                    L.add(gen.entry_nodes(rng, m + '/data-' + tag, 'tree', tag + 'm'))
-                    if sp == 'mount_rel':
-                        spelling = os.path.relpath('/' + m, '/' + cwd)
-                    else:
-                        spelling = '@/' + m + ('/' if sp == 'mount/' else '')
-            if sp == 'ancestor':
-                spelling = '@/' + os.path.dirname(cwd)
-            elif sp not in ('mount', 'mount/', 'mount_rel'):
-                spelling = sp
-            args.append({'spelling': spelling, 'class': 'dot:' + sp})
-            continue
-        # ordinary entry
-        v = rng.choice(vols)
-        d = workdirs[v]
-        if rng.random() < 0.3:
-            d = d + '/sub' + str(a)
-            L.add({'p': d, 't': 'd', 'm': 0o755})
+    if cwd_vol is None:
+        cwd_vol = rng.choice(vols)
+    L.cwd = workdirs[cwd_vol]
+    return workdirs
+
+
+def add_dot_entry(L, rng, workdirs, tag, sp=None):
+    cwd = L.cwd
+    sp = sp or rng.choice(DOT_SPELLINGS)
+    # give the cwd some content and a subdir d
+    L.add(gen.entry_nodes(rng, cwd + '/keep-' + tag, 'file', tag))
+    L.add({'p': cwd + '/d', 't': 'd', 'm': 0o755})
+    L.add(gen.entry_nodes(rng, cwd + '/d/inner-' + tag, 'tree', tag + 'i'))
+    spelling = sp
+    if sp in ('mount', 'mount/', 'mount_rel'):
+        ms = [m for m in L.mounts if m]
+        if not ms:
+            sp = spelling = './'
+        else:
+            m = rng.choice(ms)
+            L.add(gen.entry_nodes(rng, m + '/data-' + tag, 'tree', tag + 'm'))
+            if sp == 'mount_rel':
+                spelling = os.path.relpath('/' + m, '/' + cwd)
+            else:
+                spelling = '@/' + m + ('/' if sp == 'mount/' else '')
+    elif sp == 'ancestor':
+        anc = os.path.dirname(cwd)
+        ht = L.home_trash() or ''
+        if not anc or anc in L.mounts or ht.startswith(anc + '/') or \
+                any(m.startswith(anc + '/') for m in L.mounts):
+            # the sandbox root, a mount point (covered by 'mount') or a
+            # directory holding a trash dir / a mount: not an ordinary entry
+            sp = spelling = '../'
+        else:
+            spelling = '@/' + anc
+    return {'spelling': spelling, 'class': 'dot:' + sp}
+
+
+def add_entry(L, rng, workdirs, a, tag, used, kinds=None, spellings=None,
+              name=None, vol=None, name_kw=None):
+    """one ordinary user entry + the spelling of the argument naming it"""
+    vols = list(L.mounts)
+    cwd = L.cwd
+    v = vol if vol is not None else rng.choice(vols)
+    d = workdirs[v]
+    if rng.random() < 0.3:
+        d = d + '/sub' + str(a)
+        L.add({'p': d, 't': 'd', 'm': 0o755})
+    if name is None:
         for _ in range(20):
-            name = gen.hostile_name(rng)
-            if (d, name) not in used and name not in ('d', 'sib', 'links') and not name.startswith(('pl', 'lnk', 'keep-', 'target-')):
+            name = gen.hostile_name(rng, **(name_kw or {}))
+            if (d, name) not in used and name not in ('d', 'sib', 'links') \
+                    and not name.startswith(('pl', 'lnk', 'keep-', 'target-',
+                                             'sub', 'mytrash', 'deep')):
                 break
-        used.add((d, name))
-        kind = rng.choice(gen.ENTRY_KINDS)
-        rel = d + '/' + name
-        target = None
-        if kind in ('link_file', 'link_dir', 'link_link'):
-            tv = rng.choice(vols)
-            tdir = workdirs[tv]
-            tname = 'target-' + tag
-            if kind == 'link_file':
-                L.add(gen.entry_nodes(rng, tdir + '/' + tname, 'file', tag + 't'))
-            elif kind == 'link_dir':
-                L.add(gen.entry_nodes(rng, tdir + '/' + tname, 'tree', tag + 't'))
-            else:
-                L.add(gen.entry_nodes(rng, tdir + '/' + tname + '-f', 'file', tag + 't'))
-                L.add({'p': tdir + '/' + tname, 't': 'l', 'to': tname + '-f'})
-            if rng.random() < 0.5:
-                target = '@/' + tdir + '/' + tname
-            else:
-                target = os.path.relpath('/' + tdir + '/' + tname, '/' + d)
-        elif kind == 'link_dangling':
-            target = rng.choice(['nowhere-' + tag, '/nonexistent/' + tag,
-                                 '../gone/' + tag])
-        L.add(gen.entry_nodes(rng, rel, kind, tag, target))
-        isdirlike = kind in ('tree', 'dir_empty', 'link_dir')
-        sp = rng.choice(SPELLINGS)
-        if sp in ('trail1', 'trail2', 'abs_trail') and not isdirlike and \
-                rng.random() < 0.7:
-            sp = 'rel'
-        relfrom = os.path.relpath('/' + rel, '/' + cwd)
-        if sp == 'rel':
-            spelling = relfrom
-        elif sp == 'abs':
-            spelling = '@/' + rel
-        elif sp == 'dotslash':
-            spelling = './' + relfrom
-        elif sp == 'dotdot':
-            L.add({'p': d + '/sib', 't': 'd', 'm': 0o755})
-            spelling = os.path.relpath('/' + d, '/' + cwd) + '/sib/../' + name
-        elif sp == 'dotdot_link':
-            # lnk -> d/sib ;  lnk/../name  names d/name (kernel), while the
-            # lexical reading names <dir of lnk>/name
-            L.add({'p': d + '/sib', 't': 'd', 'm': 0o755})
-            lv = rng.choice(vols)
-            ld = workdirs[lv] + '/links'
-            L.add({'p': ld, 't': 'd', 'm': 0o755})
-            L.add({'p': ld + '/lnk%d' % a, 't': 'l', 'to': '@/' + d + '/sib'})
-            if rng.random() < 0.5:
-                # decoy with the same name where the lexical reading points
-                L.add(gen.entry_nodes(rng, ld + '/' + name, 'file', tag + 'decoy'))
-            spelling = os.path.relpath('/' + ld, '/' + cwd) + '/lnk%d/../' % a + name
-        elif sp == 'trail1':
-            spelling = relfrom + '/'
-        elif sp == 'trail2':
-            spelling = relfrom + '//'
-        elif sp == 'abs_trail':
-            spelling = '@/' + rel + '/'
-        elif sp == 'double_slash':
-            spelling = os.path.relpath('/' + d, '/' + cwd) + '//' + name
-        elif sp == 'via_link_parent':
-            lv = rng.choice(vols)
-            L.add({'p': workdirs[lv] + '/pl%d' % a, 't': 'l', 'to': '@/' + d})
-            spelling = os.path.relpath('/' + workdirs[lv], '/' + cwd) + '/pl%d/' % a + name
-        if spelling.startswith('-') or (spelling == relfrom and name.startswith('-')):
-            if not spelling.startswith('./') and not spelling.startswith('@'):
-                spelling = './' + spelling if rng.random() < 0.7 else spelling
-        args.append({'spelling': spelling, 'class': sp, 'kind': kind})
-    # sometimes a nonexistent argument too
-    if rng.random() < 0.2:
-        args.insert(rng.randrange(len(args) + 1),
-                    {'spelling': 'no-such-' + str(index), 'class': 'missing'})
-    # options
-    r = rng.random()
-    optclass = 'none'
+    used.add((d, name))
+    kind = rng.choice(kinds or gen.ENTRY_KINDS)
+    rel = d + '/' + name
+    target = None
+    tgt_rel = None
+    if kind in ('link_file', 'link_dir', 'link_link'):
+        tv = rng.choice(vols)
+        tdir = workdirs[tv]
+        tname = 'target-' + tag
+        tgt_rel = tdir + '/' + tname
+        if kind == 'link_file':
+            L.add(gen.entry_nodes(rng, tgt_rel, 'file', tag + 't'))
+        elif kind == 'link_dir':
+            L.add(gen.entry_nodes(rng, tgt_rel, 'tree', tag + 't'))
+        else:
+            L.add(gen.entry_nodes(rng, tgt_rel + '-f', 'file', tag + 't'))
+            L.add({'p': tgt_rel, 't': 'l', 'to': tname + '-f'})
+        if rng.random() < 0.5:
+            target = '@/' + tgt_rel
+        else:
+            target = os.path.relpath('/' + tgt_rel, '/' + d)
+    elif kind == 'link_dangling':
+        target = rng.choice(['nowhere-' + tag, '/nonexistent/' + tag,
+                             '../gone/' + tag, name])
+    L.add(gen.entry_nodes(rng, rel, kind, tag, target))
+    isdirlike = kind in ('tree', 'dir_empty', 'link_dir')
+    sp = rng.choice(spellings or SPELLINGS)
+    if sp in ('trail1', 'trail2', 'abs_trail', 'trail3') and not isdirlike \
+            and rng.random() < 0.7:
+        sp = 'rel'
+    relfrom = os.path.relpath('/' + rel, '/' + cwd)
+    dfrom = os.path.relpath('/' + d, '/' + cwd)
+    if sp == 'rel':
+        spelling = relfrom
+    elif sp == 'abs':
+        spelling = '@/' + rel
+    elif sp == 'dotslash':
+        spelling = './' + relfrom
+    elif sp == 'dotdot':
+        L.add({'p': d + '/sib', 't': 'd', 'm': 0o755})
+        spelling = dfrom + '/sib/../' + name
+    elif sp == 'dotdot_link':
+        # lnk -> d/sib ;  lnk/../name  names d/name (kernel), while the
+        # lexical reading names <dir of lnk>/name
+        L.add({'p': d + '/sib', 't': 'd', 'm': 0o755})
+        lv = rng.choice(vols)
+        ld = workdirs[lv] + '/links'
+        L.add({'p': ld, 't': 'd', 'm': 0o755})
+        L.add({'p': ld + '/lnk%d' % a, 't': 'l', 'to': '@/' + d + '/sib'})
+        if rng.random() < 0.5 and (ld, name) not in used:
+            # decoy with the same name where the lexical reading points
+            L.add(gen.entry_nodes(rng, ld + '/' + name, 'file', tag + 'decoy'))
+            used.add((ld, name))
+        spelling = os.path.relpath('/' + ld, '/' + cwd) + '/lnk%d/../' % a + name
+    elif sp == 'trail1':
+        spelling = relfrom + '/'
+    elif sp == 'trail2':
+        spelling = relfrom + '//'
+    elif sp == 'trail3':
+        spelling = relfrom + '///'
+    elif sp == 'abs_trail':
+        spelling = '@/' + rel + '/'
+    elif sp == 'double_slash':
+        spelling = dfrom + '//' + name
+    elif sp == 'via_link_parent':
+        lv = rng.choice(vols)
+        L.add({'p': workdirs[lv] + '/pl%d' % a, 't': 'l', 'to': '@/' + d})
+        spelling = os.path.relpath('/' + workdirs[lv], '/' + cwd) + '/pl%d/' % a + name
+    return {'spelling': spelling, 'class': sp, 'kind': kind, 'rel': rel,
+            'target': tgt_rel}
+
+
+def pick_options(L, rng, workdirs, args, index, allowed=None):
+    vols = list(L.mounts)
+    opts = []
+    stdin = ''
     env_extra = {}
-    if r < 0.12:
-        opts.append('-f'); optclass = '-f'
-    elif r < 0.27:
-        opts.append('-i'); optclass = '-i'
+    table = [('-f', 0.12), ('-i', 0.15), ('-v', 0.10), ('--trash-dir', 0.15),
+             ('--home-fallback', 0.12), ('fallback-env-only', 0.04),
+             ('none', 0.32)]
+    if allowed is not None:
+        table = [(k, w) for k, w in table if k in allowed]
+    tot = sum(w for _, w in table)
+    r = rng.random() * tot
+    optclass = table[-1][0]
+    for k, w in table:
+        if r < w:
+            optclass = k
+            break
+        r -= w
+    if optclass == '-f':
+        opts.append('-f')
+    elif optclass == '-i':
+        opts.append('-i')
         replies = [rng.choice(['y', 'n', 'Y', 'yes', 'N', '', 'x', ' y', 'no'])
                    for _ in range(len(args) + 1)]
         stdin = ''.join(x + '\n' for x in replies)
         if rng.random() < 0.15:
             stdin = stdin[:rng.randrange(len(stdin) + 1)]
-    elif r < 0.37:
-        opts.append(rng.choice(['-v', '-vv'])); optclass = '-v'
-    elif r < 0.52:
+    elif optclass == '-v':
+        opts.append(rng.choice(['-v', '-vv']))
+    elif optclass == '--trash-dir':
         tv = rng.choice(vols)
         td = L.vol_path(tv, rng.choice(['mytrash', 'deep/er/trash', '.Trash-x']))
         if rng.random() < 0.4:
             L.add(world.ensure_trash_dirs(td))
-        opts += ['--trash-dir', '@/' + td]; optclass = '--trash-dir'
-    elif r < 0.64:
-        opts.append('--home-fallback'); optclass = '--home-fallback'
+        opts += ['--trash-dir', '@/' + td]
+    elif optclass == '--home-fallback':
+        opts.append('--home-fallback')
         if rng.random() < 0.6:
             env_extra['TRASH_ENABLE_HOME_FALLBACK'] = '1'
             optclass = '--home-fallback+env'
-    elif r < 0.68:
+    elif optclass == 'fallback-env-only':
         env_extra['TRASH_ENABLE_HOME_FALLBACK'] = '1'
-        optclass = 'fallback-env-only'
-    # pre-existing trash content in the home trash / alt dirs (collisions)
+    return opts, stdin, env_extra, optclass
+
+
+def gen_case(rng, index, tier):
+    L = gen.make_layout(rng)
+    dotcase = rng.random() < 0.22
+    args = []
+    workdirs = setup_workdirs(L, rng)
+    n_args = 1 if dotcase else rng.choice([1, 1, 2, 2, 3])
+    used = set()
+    for a in range(n_args):
+        tag = 'c%da%d' % (index, a)
+        if dotcase:
+            args.append(add_dot_entry(L, rng, workdirs, tag))
+        else:
+            arg = add_entry(L, rng, workdirs, a, tag, used)
+            sp = arg['spelling']
+            if sp.startswith('-') and rng.random() < 0.7:
+                arg['spelling'] = './' + sp
+            args.append(arg)
+    # sometimes a nonexistent argument too
+    if rng.random() < 0.2:
+        args.insert(rng.randrange(len(args) + 1),
+                    {'spelling': 'no-such-' + str(index), 'class': 'missing'})
+    opts, stdin, env_extra, optclass = pick_options(L, rng, workdirs, args, index)
+    # pre-existing trash content in the home trash (name collisions)
     if rng.random() < 0.35:
         ht = L.home_trash()
         if ht:
@@ -192,8 +240,7 @@ def gen_case(rng, index, tier):
             for a in args:
                 nm = os.path.basename(a['spelling'].rstrip('/')) or 'x'
                 if gen.is_valid_utf8(nm) and nm not in ('.', '..') and \
-                        len(nm.encode()) < 240 and \
-                        rng.random() < 0.7:
+                        len(nm.encode()) < 240 and rng.random() < 0.7:
                     L.add(world.trash_nodes(
                         ht, nm, world.trashinfo_text('/old/' + spec.pct_encode(
                             nm.encode()), '2001-01-01T00:00:00'),
@@ -281,7 +328,7 @@ def judge(case, w, r, s0, s1, des, out):
             obs['args_nothing'] = obs.get('args_nothing', 0) + 1
         else:
             out['violations'].append({
-                'mechanism': mechanism(st, a, rep, r),
+                'mechanism': mechanism(st, a, rep, r, o, case),
                 'detail': detail(case, w, r, o, A)})
     if A.frame:
         kinds = sorted(set(f[0] for f in A.frame))
@@ -304,8 +351,19 @@ def judge(case, w, r, s0, s1, des, out):
     return out
 
 
-def mechanism(state, a, reported, r):
+def fallback_on(case):
+    return '--home-fallback' in case['opts'] and \
+        case['env'].get('TRASH_ENABLE_HOME_FALLBACK') == '1'
+
+
+def mechanism(state, a, reported, r, o=None, case=None):
     cls = a['class']
+    if state == 'ALTERED' and o and o.get('only_symlink_mtime') and \
+            case and fallback_on(case) and \
+            any(e['op'] == 'symlink' for e in r.mut()):
+        # cross-device copy by shutil.move: os.symlink + os.unlink, the
+        # link's own mtime is not carried over
+        return 'fallback-copy-loses-symlink-mtime'
     exitc = 'exit0' if r.exit == 0 else 'exitN'
     return '%s/%s/%s%s' % (state, cls, exitc, '/reported' if reported else '')
 
